@@ -217,8 +217,26 @@ fn base(seed: u64, r: &mut Rng, max_len: usize, max_depth: usize, srcs: &[Src]) 
 }
 
 fn gen_target(r: &mut Rng, len: usize, empty: bool) -> Target {
-    let kind = *r.pick(&[TargetKind::Vec, TargetKind::Vec, TargetKind::SplitDoubling, TargetKind::SplitLinear, TargetKind::Fixed]);
-    let prefix = if empty { 0 } else { *r.pick(&[0usize, 1, 1, 5, 5, len + 3, 2]) };
+    let kind = *r.pick(&[
+        TargetKind::Vec,
+        TargetKind::Vec,
+        TargetKind::SplitDoubling,
+        TargetKind::SplitLinear,
+        TargetKind::Fixed,
+        TargetKind::SplitNew,
+        TargetKind::SplitNew,
+        TargetKind::SplitLinearSmall,
+    ]);
+    // prefixes at and around the capacity boundaries of the growth strategies
+    let prefix = if empty {
+        0
+    } else {
+        match kind {
+            TargetKind::SplitNew => *r.pick(&[0usize, 1, 3, 4, 5, 11, 12, 13, 27, 28, 29, 59, 60, 61, len + 3]),
+            TargetKind::SplitLinearSmall => *r.pick(&[0usize, 1, 15, 16, 17, 31, 32, 33, 47, 48, 63, 64, 65, len + 3]),
+            _ => *r.pick(&[0usize, 1, 1, 5, 5, len + 3, 2, 4, 8, 16]),
+        }
+    };
     let spare = match r.below(4) {
         0 => 0,
         1 => len,
@@ -228,8 +246,20 @@ fn gen_target(r: &mut Rng, len: usize, empty: bool) -> Target {
     Target { kind, prefix, spare }
 }
 
+/// `collect_into(SplitVec<Linear>)` over a map-only pipeline of unknown length reserves 2^32 / fragment-size
+/// fragments: with 16-element fragments that is gigabytes per run. A cost, not a property; avoided.
+fn avoid_huge_reservation(scn: &mut Scenario) {
+    if let Term::CollectInto(t) = &scn.term {
+        let maponly = scn.ops.iter().all(|o| matches!(o, Op::Map { .. }));
+        if t.kind == TargetKind::SplitLinearSmall && !scn.src.known_len() && maponly {
+            scn.term = Term::CollectInto(Target { kind: TargetKind::SplitNew, ..*t });
+        }
+    }
+}
+
 /// restrict the chain so that the terminal is instantiated for its shape
 fn fit_depth(scn: &mut Scenario) {
+    avoid_huge_reservation(scn);
     if !scn.term.is_core() && scn.ops.len() > 1 {
         scn.ops.truncate(1);
         scn.nt.retain(|x| x.0 as usize <= 1);
@@ -333,6 +363,12 @@ pub fn generate(prop: &str, seed: u64) -> Scenario {
                 scn.cs.retain(|x| x.0 as usize <= d);
             }
             scn.term = Term::CollectInto(gen_target(r, scn.vals.len(), false));
+            // short inputs: a single write, an empty write
+            if r.chance(1, 5) {
+                let k = r.range(0, 2);
+                scn.vals.truncate(k);
+            }
+            avoid_huge_reservation(&mut scn);
             scn
         }
         "C07" => {
